@@ -242,7 +242,7 @@ func realQueryRun(bin string, sc *Scenario, cpu int) (string, error) {
 	if err := writeFiles(dir, sc.Files); err != nil {
 		return "", err
 	}
-	cmd := exec.Command(bin, "--repository", dir, "--quiet", "--cpu", fmt.Sprint(cpu), "--format", "CSV", sc.Procs[0].Program)
+	cmd := exec.Command(bin, append(append([]string{"--repository", dir, "--quiet", "--cpu", fmt.Sprint(cpu), "--format", "CSV"}, cliFlagArgs(sc.Procs[0].Flags)...), sc.Procs[0].Program)...)
 	cmd.Dir = filepath.Join(BaseDir, "cwd")
 	var stdout, stderr bytes.Buffer
 	cmd.Stdout, cmd.Stderr = &stdout, &stderr
